@@ -33,6 +33,8 @@ CHECKS = {
          "representation invariants stated in the evidence; stubs as C01/C02; engine; z3"),
  "C15": ("CosmeticEngine.Match (built by the real NewCosmeticEngine over rules parsed by the real parser: every single rule and ordered pair of a 15-rule menu plus triples) for a symbolic hostname and symbolic flags against the reference (CosmeticRule.Match over all rules minus matching exceptions with equal content), selectors filed generic/specific; GetCosmeticResult passes exactly the three option bits",
          "scanner stubbed as perfect; PSL model; engine; z3"),
+ "C12": ("NewRule on lines of 0..5/7 symbolic bytes over six syntax alphabets: no run-time panic on any path; nothing only for blank/comment lines, else a rule with Text()==TrimSpace(line) and the given list id, or an error; the parsing helpers and every loadOption name with symbolic values likewise",
+         "bounded no-panic claim for the listed functions, not for long real-world lines; netip/regexp contract stubs; paths into findRegexpShortcut with symbolic input are cut and counted; engine; z3"),
  "C16": ("unbounded in the fields the function reads (64-bit option word, 32-bit mask, exception flag fully symbolic under the parser's representation invariant); counterexamples replayed from rule text through the real parser",
          "InvRule on option words (validated natively on the repo's own rule corpus); go/ssa lowering; engine; z3"),
 }
